@@ -224,6 +224,7 @@ def _worker(task):
     global __cached_exprs_hash
     global __abort_flag
 
+    ntests = 0
     with debug_utils.Profiler():
         try:
             if __abort_flag and __abort_flag.is_set():
@@ -242,7 +243,6 @@ def _worker(task):
                 exprs = task.exprs
                 substs = task.simplifications
 
-            ntests = 0
             for mexprs in _simp(exprs, substs):
                 ntests += 1
                 if checker.check_exprs(mexprs):
